@@ -81,6 +81,34 @@ func whoCollect(r *engine.Run) {
 	if insertNode == nil || deleteNode == nil {
 		return
 	}
+	// insertForeignNode (sync repair): stores a donor's node under the hash it already has
+	foreign, _ := r.P.Func(pkgUtil, "MerklePatriciaTrie", "insertForeignNode")
+	if foreign != nil && len(foreign.Blocks) > 0 {
+		r.Touch(foreign)
+		var put, add *ssa.Call
+		engine.Instrs(foreign, func(in ssa.Instruction) {
+			if c, ok := in.(*ssa.Call); ok {
+				if invokeOnField(c, "db", "PutNode") {
+					put = c
+				}
+				if invokeOnField(c, "ChangeCollector", "AddChange") {
+					add = c
+				}
+			}
+		})
+		nodeP := foreign.Params[1]
+		good := put != nil && add != nil && isInvokeOf(put.Call.Args[0], "GetHashBytes", isValue(nodeP)) && put.Call.Args[1] == ssa.Value(nodeP) &&
+			nilConst(add.Call.Args[0]) && add.Call.Args[1] == ssa.Value(nodeP)
+		if good {
+			for _, ret := range engine.Returns(foreign) {
+				if len(ret.Results) == 1 && nilConst(ret.Results[0]) && !(engine.InstrDominates(put, ret) && engine.InstrDominates(add, ret)) {
+					good = false
+				}
+			}
+		}
+		r.Check(good, rule, fn(foreign)+"|put+collect", r.P.Pos(foreign.Pos()), "foreign node stored under its own hash and collected as a new change on every success path",
+			"a node merged from another store is not stored under its own hash or not collected as a change")
+	}
 	n := 0
 	for _, f := range funcsOfPkg(r, pkgUtil) {
 		top := engine.TopFunc(f)
@@ -97,7 +125,7 @@ func whoCollect(r *engine.Run) {
 				n++
 				r.CallSites++
 				m := c.Common().Method.Name()
-				good := top == insertNode && (m == "PutNode" || m == "DeleteNode") || top == deleteNode && m == "DeleteNode"
+				good := top == insertNode && (m == "PutNode" || m == "DeleteNode") || top == deleteNode && m == "DeleteNode" || top == foreign && foreign != nil && m == "PutNode"
 				r.Check(good, rule, o.next(fn(f)+"|db."+m), r.P.Pos(in.Pos()), "store write inside insertNode/deleteNode",
 					"the trie writes its store outside insertNode/deleteNode: the node is not collected as a change and is missing from the saved state")
 			}
@@ -105,7 +133,7 @@ func whoCollect(r *engine.Run) {
 				n++
 				r.CallSites++
 				m := c.Common().Method.Name()
-				good := top == insertNode && m == "AddChange" || top == deleteNode && m == "DeleteChange"
+				good := top == insertNode && m == "AddChange" || top == deleteNode && m == "DeleteChange" || top == foreign && foreign != nil && m == "AddChange"
 				r.Check(good, rule, o.next(fn(f)+"|collector."+m), r.P.Pos(in.Pos()), "collector fed inside insertNode/deleteNode", "the change collector is fed outside insertNode/deleteNode")
 			}
 		})
